@@ -112,6 +112,14 @@ class Property:
     def from_capsule(self, cfg, capsule, op):
         raise NotImplementedError
 
+    def capsule_failed(self, st, op, exc):
+        """Serialising the capsule raised.  -> violation | None (skip the restart)"""
+        return None
+
+    def load_failed(self, cfg, op, exc):
+        """Loading the capsule on the far side raised.  -> violation | None"""
+        return None
+
 
 def h64(s):
     return int.from_bytes(hashlib.sha256(s.encode()).digest()[:8], "big")
@@ -180,6 +188,8 @@ def _loop(prop, cfg, st, rng, given_ops, res, log, budget, allow_restart):
                 v = dict(child["violation"])
                 v["step"] = base + v.get("step", 0)
                 res.violation = v
+            res.stats.update(getattr(st, "stats", {}))
+            res.nontrivial = res.nontrivial or bool(prop.nontrivial(st))
             return None  # state now lives (and died) in the child
 
         out, v = prop.execute(st, op)
